@@ -21,21 +21,26 @@ theorem contains_take_succ (arr : List Int) (v : Int) (k : Nat) (hk : k < arr.le
   rw [hg]
   by_cases h : v = arr[k] <;> simp [h]
 
+private theorem inb_ofNat (a : List Int) (i : Nat) (h : i < a.length) : inb a (i : Int) = true := by
+  simp only [inb, Bool.and_eq_true, decide_eq_true_eq]; omega
+
 theorem src_check_for_value (v : Int) (arr : List Int) (e : Nat) (he : e ≤ arr.length) :
     check_for_value v arr (e : Int) = some ((arr.take e).contains v) := by
   unfold check_for_value
-  simp only [Option.some.injEq]
-  refine (forRange_inv
-    (fun k (s : check_for_value.S) => s.found = (arr.take k).contains v ∧ s.brk = s.found)
-    _ _ _ _ _ ?_ ?_).1.trans ?_
+  simp only []
+  refine forRange_elim
+    (P := fun k (s : check_for_value.S) => s.found = (arr.take k).contains v ∧ s.brk = s.found ∧
+      s.err = false ∧ s.dry = false)
+    (Q := fun s => (if (s.err || s.dry) = true then none else some s.found) =
+      some ((arr.take e).contains v)) _ _ _ _ _ ?_ ?_ ?_
   · simp
-  · intro k s hk ⟨hf, hb⟩
+  · intro k s hk ⟨hf, hb, he', hd⟩
     have hk' : k < arr.length := by simp at hk; omega
     rw [contains_take_succ arr v k hk']
     by_cases hbrk : s.brk = true
     · simp only [hbrk, if_true]
-      rw [← hf, ← hb, hbrk]; simp
-    · simp only [hbrk, Int.zero_add, geti_ofNat]
+      rw [← hf, ← hb, hbrk]; simp [he', hd]
+    · simp only [hbrk, Int.zero_add, geti_ofNat, he', hd, inb_ofNat arr k hk']
       have hbf : s.brk = false := by simpa using hbrk
       rw [hbf] at hb
       generalize arr.getD k 0 = w
@@ -44,7 +49,8 @@ theorem src_check_for_value (v : Int) (arr : List Int) (e : Nat) (he : e ≤ arr
       · have hnot : (arr.take k).contains v = false := by rw [← hf, ← hb]
         simp only [List.contains_eq_mem, decide_eq_false_iff_not] at hnot
         simp [hv, hnot, ← hb]
-  · simp
+  · intro s ⟨hf, _, he', hd⟩
+    simp [hf, he', hd]
 
 /-! ### binary_search_interval -/
 
@@ -67,54 +73,78 @@ theorem bsLoop_fuel_succ (v : Int) (cum : List Int) :
     · simp only [hw, if_false]
 
 /-- the translated `while right - left > 1` loop, described by what its condition and body do to
-    `left` / `right`, computes `bsLoop` with the same fuel -/
+    `left` / `right` / `brk` / `err` / `dry`, computes `bsLoop` with the same fuel and performs
+    no out-of-range read -/
 theorem bs_while (v : Int) (cum : List Int)
     (c : binary_search_interval.S → Bool) (b : binary_search_interval.S → binary_search_interval.S)
-    (hc : ∀ s, c s = decide (s.right - s.left > 1))
+    (hc : ∀ s, c s = (!s.brk && decide (s.right - s.left > 1)))
     (hbl : ∀ s, (b s).left =
       if v ≤ geti cum ((s.left + s.right) / 2) then s.left else (s.left + s.right) / 2)
     (hbr : ∀ s, (b s).right =
-      if v ≤ geti cum ((s.left + s.right) / 2) then (s.left + s.right) / 2 else s.right) :
+      if v ≤ geti cum ((s.left + s.right) / 2) then (s.left + s.right) / 2 else s.right)
+    (hbb : ∀ s, (b s).brk = s.brk)
+    (hbd : ∀ s, (b s).dry = s.dry)
+    (hbe : ∀ s, (b s).err = (s.err || !inb cum ((s.left + s.right) / 2))) :
     ∀ (n : Nat) (s : binary_search_interval.S) (l r : Nat), s.left = (l : Int) → s.right = (r : Int) →
-      (whileN n c b s).right = ((Select.bsLoop v cum n l r : Nat) : Int) := by
+      r < cum.length → s.brk = false → s.err = false → s.dry = false →
+      (whileN n c b s).right = ((Select.bsLoop v cum n l r : Nat) : Int) ∧
+      (whileN n c b s).err = false ∧ (whileN n c b s).dry = false := by
   intro n
   induction n with
-  | zero => intro s l r _ hr; simpa [whileN, Select.bsLoop] using hr
+  | zero => intro s l r _ hr _ _ he hd; simpa [whileN, Select.bsLoop, he, hd] using hr
   | succ n ih =>
-    intro s l r hl hr
-    rw [whileN_succ, hc, Select.bsLoop, hl, hr]
+    intro s l r hl hr hrl hb he hd
+    rw [whileN_succ, hc, Select.bsLoop, hl, hr, hb]
     have hmid : ((l : Int) + (r : Int)) / 2 = (((l + r) / 2 : Nat) : Int) := by omega
     by_cases hw : r - l > 1
     · have hw' : (r : Int) - (l : Int) > 1 := by omega
-      simp only [hw, hw', decide_true, if_true]
+      simp only [hw, hw', decide_true, if_true, Bool.not_false, Bool.and_self]
       have h1 := hbl s
       have h2 := hbr s
-      rw [hl, hr, hmid, geti_ofNat] at h1 h2
+      have h3 := hbe s
+      rw [hl, hr, hmid] at h1 h2 h3
+      rw [geti_ofNat] at h1 h2
+      rw [inb_ofNat cum _ (by omega), he] at h3
+      have hb' : (b s).brk = false := by rw [hbb, hb]
+      have hd' : (b s).dry = false := by rw [hbd, hd]
       by_cases hv : v ≤ cum.getD ((l + r) / 2) 0
       · simp only [hv, if_true] at h1 h2 ⊢
-        exact ih (b s) l ((l + r) / 2) h1 h2
+        exact ih (b s) l ((l + r) / 2) h1 h2 (by omega) hb' h3 hd'
       · simp only [hv, if_false] at h1 h2 ⊢
-        exact ih (b s) ((l + r) / 2) r h1 h2
+        exact ih (b s) ((l + r) / 2) r h1 h2 hrl hb' h3 hd'
     · have hw' : ¬ ((r : Int) - (l : Int) > 1) := by omega
-      simp only [hw, hw', decide_false, Bool.false_eq_true, if_false, hr]
+      simp only [hw, hw', decide_false, Bool.false_eq_true, if_false, hr, he, hd, Bool.and_false,
+        and_self]
 
 theorem src_bsearch (v : Int) (cum : List Int) (hne : cum ≠ []) :
     binary_search_interval v cum = some (Select.bsearch v cum : Int) := by
   unfold binary_search_interval Select.bsearch
-  simp only [Option.some.injEq, leni]
+  simp only [leni]
   have hg0 : geti cum 0 = cum.getD 0 0 := geti_ofNat cum 0
   rw [hg0]
   have hlen : 0 < cum.length := List.length_pos_iff.mpr hne
+  have hin0 : inb cum 0 = true := inb_ofNat cum 0 hlen
   by_cases h : v ≤ cum.getD 0 0
-  · simp only [h, decide_true, if_true]
+  · simp only [h, decide_true, if_true, hin0]
     rfl
-  · simp only [h, decide_false, Bool.false_eq_true, if_false]
-    rw [← bsLoop_fuel_succ v cum cum.length 0 (cum.length - 1) (by omega)]
-    exact bs_while v cum _ _ (fun s => rfl) (fun s => by
-        by_cases hv : v ≤ geti cum ((s.left + s.right) / 2) <;> simp [hv])
-      (fun s => by
-        by_cases hv : v ≤ geti cum ((s.left + s.right) / 2) <;> simp [hv])
-      (cum.length + 1) _ 0 (cum.length - 1) rfl (by simp; omega)
+  · simp only [h, decide_false, Bool.false_eq_true, if_false, hin0]
+    generalize hW : whileN _ _ _ _ = W
+    obtain ⟨h1, h2, h3⟩ : W.right = ((Select.bsLoop v cum (cum.length + 1) 0 (cum.length - 1) : Nat) : Int) ∧
+        W.err = false ∧ W.dry = false := by
+      rw [← hW]
+      exact bs_while v cum _ _ (fun s => rfl) (fun s => by
+          by_cases hv : v ≤ geti cum ((s.left + s.right) / 2) <;> simp [hv])
+        (fun s => by
+          by_cases hv : v ≤ geti cum ((s.left + s.right) / 2) <;> simp [hv])
+        (fun s => by
+          by_cases hv : v ≤ geti cum ((s.left + s.right) / 2) <;> simp [hv])
+        (fun s => by
+          by_cases hv : v ≤ geti cum ((s.left + s.right) / 2) <;> simp [hv])
+        (fun s => by
+          by_cases hv : v ≤ geti cum ((s.left + s.right) / 2) <;> simp [hv])
+        (cum.length + 1) _ 0 (cum.length - 1) rfl (by simp; omega) (by omega) rfl rfl rfl
+    rw [bsLoop_fuel_succ v cum cum.length 0 (cum.length - 1) (by omega)] at h1
+    simp [h1, h2, h3]
 
 /-! ### argsort_k -/
 
@@ -138,64 +168,78 @@ theorem argmaxIdxAux_start (V : List Int) (m : Nat) (hm : m < V.length) :
 theorem src_argsort_k (vals : List Int) (k : Nat) (hk : k ≤ vals.length) :
     argsort_k vals (k : Int) = some ((Select.argsortK vals k).map Int.ofNat) := by
   unfold argsort_k
-  simp only [Option.some.injEq, leni, Int.toNat_natCast]
+  simp only [leni, Int.toNat_natCast]
   refine forRange_elim
-    (fun m (s : argsort_k.S) => s.brk = false ∧ s.size = (vals.length : Int) ∧
+    (P := fun m (s : argsort_k.S) => s.brk = false ∧ s.err = false ∧ s.dry = false ∧
+      s.size = (vals.length : Int) ∧
       ∃ (V : List Int) (I : List Nat), s.array_copy = V ∧ s.to_return = I.map Int.ofNat ∧
         V.length = vals.length ∧ I.length = vals.length ∧
         argsortKAux (k - m) m V I = argsortK vals k)
-    (fun s => s.to_return = (argsortK vals k).map Int.ofNat) _ _ _ _ _ ?_ ?_ ?_
-  · exact ⟨rfl, rfl, vals, List.range vals.length, rfl, rfl, rfl, by simp, rfl⟩
-  · intro m s hm ⟨hb, hsz, V, I, hV, hI, hVl, hIl, hrest⟩
+    (Q := fun s => (if (s.err || s.dry) = true then none else some s.to_return) =
+      some ((argsortK vals k).map Int.ofNat)) _ _ _ _ _ ?_ ?_ ?_
+  · exact ⟨rfl, rfl, rfl, rfl, vals, List.range vals.length, rfl, rfl, rfl, by simp, rfl⟩
+  · intro m s hm ⟨hb, he, hd, hsz, V, I, hV, hI, hVl, hIl, hrest⟩
     have hmk : m < k := by omega
     have hmn : m < vals.length := by omega
     simp only [hb, Bool.false_eq_true, if_false, Int.zero_add, hsz, hV, hI]
     generalize hs1 : forRange _ _ _ _ _ = s1
     have hQ : s1.array_copy = V ∧ s1.to_return = I.map Int.ofNat ∧ s1.size = (vals.length : Int) ∧
-        s1.i = (m : Int) ∧ s1.max_id = ((maxPosFrom V m : Nat) : Int) := by
+        s1.i = (m : Int) ∧ s1.max_id = ((maxPosFrom V m : Nat) : Int) ∧ s1.err = false ∧
+        s1.dry = false := by
       rw [← hs1]
       refine forRange_elim
-        (fun t (s' : argsort_k.S) => s'.brk = false ∧ s'.array_copy = V ∧
+        (P := fun t (s' : argsort_k.S) => s'.brk = false ∧ s'.err = false ∧ s'.dry = false ∧
+          s'.array_copy = V ∧
           s'.to_return = I.map Int.ofNat ∧ s'.size = (vals.length : Int) ∧ s'.i = (m : Int) ∧
           ∃ bi : Nat, s'.max_id = ((m + bi : Nat) : Int) ∧
             argmaxIdxAux s'.max_ bi t (V.drop (m + t)) = argmaxIdx (V.drop m))
-        (fun s1 => s1.array_copy = V ∧ s1.to_return = I.map Int.ofNat ∧
+        (Q := fun s1 => s1.array_copy = V ∧ s1.to_return = I.map Int.ofNat ∧
           s1.size = (vals.length : Int) ∧ s1.i = (m : Int) ∧
-          s1.max_id = ((maxPosFrom V m : Nat) : Int)) _ _ _ _ _ ?_ ?_ ?_
-      · refine ⟨rfl, rfl, rfl, rfl, rfl, 0, rfl, ?_⟩
-        simp only [geti_ofNat, Nat.add_zero]
-        exact argmaxIdxAux_start V m (by omega)
-      · intro t s' ht ⟨hb', hV', hI', hsz', hi', bi, hmid, hrec⟩
+          s1.max_id = ((maxPosFrom V m : Nat) : Int) ∧ s1.err = false ∧ s1.dry = false)
+        _ _ _ _ _ ?_ ?_ ?_
+      · refine ⟨rfl, ?_, hd, rfl, rfl, rfl, rfl, 0, rfl, ?_⟩
+        · simp only [he, inb_ofNat V m (by omega), Bool.not_true, Bool.or_self]
+        · simp only [geti_ofNat, Nat.add_zero]
+          exact argmaxIdxAux_start V m (by omega)
+      · intro t s' ht ⟨hb', he', hd', hV', hI', hsz', hi', bi, hmid, hrec⟩
         have ht' : m + t < V.length := by omega
         rw [List.drop_eq_getElem_cons ht', argmaxIdxAux] at hrec
+        have hmt : (m : Int) + (t : Int) = ((m + t : Nat) : Int) := by omega
         have hg : geti V ((m : Int) + (t : Int)) = V[m + t] := by
-          rw [show (m : Int) + (t : Int) = ((m + t : Nat) : Int) by omega, geti_ofNat]
+          rw [hmt, geti_ofNat]
           simp [List.getD_eq_getElem?_getD, ht']
-        simp only [hb', Bool.false_eq_true, if_false, hV', hg, gt_iff_lt]
+        have hin : inb V ((m : Int) + (t : Int)) = true := by
+          rw [hmt]; exact inb_ofNat V _ ht'
+        simp only [hb', he', hd', Bool.false_eq_true, if_false, hV', hg, hin, gt_iff_lt,
+          Bool.not_true, Bool.or_self]
         by_cases hlt : s'.max_ < V[m + t]
         · simp only [hlt, if_true, decide_true] at hrec ⊢
-          refine ⟨trivial, trivial, hI', hsz', hi', t, by omega, ?_⟩
+          refine ⟨trivial, trivial, trivial, trivial, hI', hsz', hi', t, by omega, ?_⟩
           rw [← hrec]; rfl
         · simp only [hlt, if_false, decide_false, Bool.false_eq_true] at hrec ⊢
-          refine ⟨trivial, trivial, hI', hsz', hi', bi, hmid, ?_⟩
+          refine ⟨trivial, trivial, trivial, trivial, hI', hsz', hi', bi, hmid, ?_⟩
           rw [← hrec]; rfl
-      · intro s' ⟨_, hV', hI', hsz', hi', bi, hmid, hrec⟩
-        refine ⟨hV', hI', hsz', hi', ?_⟩
+      · intro s' ⟨_, he', hd', hV', hI', hsz', hi', bi, hmid, hrec⟩
+        refine ⟨hV', hI', hsz', hi', ?_, he', hd'⟩
         have hn : m + ((vals.length : Int) - (m : Int)).toNat = V.length := by omega
         rw [hn, List.drop_length, argmaxIdxAux] at hrec
         rw [hmid, hrec, maxPosFrom]
-    obtain ⟨h1, h2, h3, h4, h5⟩ := hQ
+    obtain ⟨h1, h2, h3, h4, h5, h6, h7⟩ := hQ
     obtain ⟨_, hmx, _⟩ := maxPosFrom_spec V m (by omega)
-    refine ⟨trivial, h3, Select.swap V m (maxPosFrom V m), Select.swap I m (maxPosFrom V m), ?_, ?_,
-      by rw [swap_length, hVl], by rw [swap_length, hIl], ?_⟩
-    · rw [h1, h4, h5]
-      simp only [geti_ofNat, seti_ofNat]
+    have hiV : inb V (m : Int) = true := inb_ofNat V m (by omega)
+    have hiVx : inb V ((maxPosFrom V m : Nat) : Int) = true := inb_ofNat V _ hmx
+    have hiI : inb (I.map Int.ofNat) (m : Int) = true := inb_ofNat _ m (by simp; omega)
+    have hiIx : inb (I.map Int.ofNat) ((maxPosFrom V m : Nat) : Int) = true :=
+      inb_ofNat _ _ (by simp; omega)
+    simp only [h1, h2, h3, h4, h5, h6, h7, hiV, hiVx, hiI, hiIx, Bool.not_true, Bool.or_self]
+    refine ⟨trivial, trivial, trivial, trivial, Select.swap V m (maxPosFrom V m),
+      Select.swap I m (maxPosFrom V m), ?_, ?_, by rw [swap_length, hVl], by rw [swap_length, hIl], ?_⟩
+    · simp only [geti_ofNat, seti_ofNat]
       exact set_set_eq_swap V m _ (by omega) hmx
-    · rw [h2, h4, h5]
-      simp only [geti_ofNat, seti_ofNat]
+    · simp only [geti_ofNat, seti_ofNat]
       exact set_set_map_eq_swap I m _ (by omega) (by omega)
     · rw [← hrest, show k - m = (k - (m + 1)) + 1 by omega, argsortKAux]
-  · intro s ⟨_, _, V, I, _, hI, _, _, hrest⟩
+  · intro s ⟨_, he, hd, _, V, I, _, hI, _, _, hrest⟩
     simp only [Int.sub_zero, Int.toNat_natCast, Nat.sub_self, argsortKAux] at hrest
-    rw [hI, hrest]
+    simp [he, hd, hI, hrest]
 end TFV.SrcTie
